@@ -172,8 +172,9 @@ pub fn opts_of(idx: u8) -> BOpts {
 pub enum Op {
     /// Backup with options P (0) or Q (1).
     Backup(u8),
-    /// Backup with options P (0) or R (2) stopped before its m-th mutating storage operation.
-    Crashed(u8, usize),
+    /// Backup with options P (0) or R (2) stopped before its m-th mutating storage operation; with
+    /// the flag, the target of that write is left behind as an empty file.
+    Crashed(u8, usize, bool),
     Delete(Vec<u32>),
     Gc,
     /// A block referenced by nothing appears (seed construction only).
@@ -196,7 +197,11 @@ impl Ev {
             Op::Backup(0) => "backup(P)".to_string(),
             Op::Backup(1) => "backup(Q)".to_string(),
             Op::Backup(_) => "backup(R)".to_string(),
-            Op::Crashed(o, m) => format!("backup({}) killed before mutating op {m}", if *o == 0 { "P" } else { "R" }),
+            Op::Crashed(o, m, l) => format!(
+                "backup({}) killed before mutating op {m}{}",
+                if *o == 0 { "P" } else { "R" },
+                if *l { " leaving an empty file" } else { "" }
+            ),
             Op::Delete(b) => format!("delete {b:?}"),
             Op::Gc => "gc".to_string(),
             Op::Garbage(c) => format!("garbage block {}", crate::util::show_bytes(c)),
@@ -206,7 +211,7 @@ impl Ev {
     pub fn to_json(&self) -> Value {
         let op = match &self.op {
             Op::Backup(o) => json!({"backup": o}),
-            Op::Crashed(o, m) => json!({"crashed": m, "opts": o}),
+            Op::Crashed(o, m, l) => json!({"crashed": m, "opts": o, "leftover": l}),
             Op::Delete(b) => json!({"delete": b}),
             Op::Gc => json!("gc"),
             Op::Garbage(c) => json!({"garbage": crate::util::hex(c)}),
@@ -221,7 +226,11 @@ impl Ev {
         } else if let Some(b) = o.get("backup") {
             Op::Backup(b.as_u64().unwrap() as u8)
         } else if let Some(m) = o.get("crashed") {
-            Op::Crashed(o.get("opts").and_then(|x| x.as_u64()).unwrap_or(0) as u8, m.as_u64().unwrap() as usize)
+            Op::Crashed(
+                o.get("opts").and_then(|x| x.as_u64()).unwrap_or(0) as u8,
+                m.as_u64().unwrap() as usize,
+                o.get("leftover").and_then(|x| x.as_bool()).unwrap_or(false),
+            )
         } else if let Some(d) = o.get("delete") {
             Op::Delete(d.as_array().unwrap().iter().map(|x| x.as_u64().unwrap() as u32).collect())
         } else {
@@ -360,7 +369,7 @@ pub fn execute(
             }
             backup = Some(out);
         }
-        Op::Crashed(o, m) => {
+        Op::Crashed(o, m, leftover) => {
             let copts = opts_of(*o);
             // Probe the fault-free trace on a copy to find the m-th mutating operation.
             let probe = dir.with_extension("probe");
@@ -371,7 +380,10 @@ pub fn execute(
             let trace = icpt.take_log();
             let muts: Vec<usize> = trace.iter().filter(|r| r.is_mutating()).map(|r| r.idx).collect();
             let k = *muts.get(*m)?;
-            let icpt = Icpt::new(dir, Plan::crash(k, false));
+            if *leftover && !(trace[k].verb == conserve::transport::record::Verb::Write && trace[k].pre == Pre::Absent) {
+                return None; // only writes of new files can leave an empty file
+            }
+            let icpt = Icpt::new(dir, Plan::crash(k, *leftover));
             let out = run::do_backup(dir, &srcs.dir_for(&tree), &copts, Some(&icpt), Flavor::Current);
             log = icpt.take_log();
             if !out.crashed {
@@ -411,7 +423,12 @@ pub fn execute(
     child.snap = Snap::load(dir);
     if let Op::Crashed(..) = ev.op {
         if child.snap.has_head(new) {
-            child.heads.insert(new, tree);
+            child.heads.insert(new, tree.clone());
+        }
+        // A kill that leaves an empty BANDTAIL leaves a band that is complete by the format's
+        // definition (DESIGN.md 4a): it must then restore exactly like any complete version.
+        if child.snap.has_tail_file(new) {
+            child.live.insert(new, tree);
         }
     }
     Some(Executed {
@@ -491,7 +508,7 @@ pub fn seeds(srcs: &SrcCache) -> Vec<HState> {
             ],
         ),
         // complete + incomplete band (killed before its BANDTAIL is far away: after two hunks)
-        mk(2, &[b(0), Ev { set: Some((0, 2)), op: Op::Crashed(0, 6) }]),
+        mk(2, &[b(0), Ev { set: Some((0, 2)), op: Op::Crashed(0, 6, false) }]),
         // band ids with a gap
         mk(
             3,
@@ -679,7 +696,13 @@ pub fn explore(
                         representative_points(&muts)
                     };
                     for m in points {
-                        do_event(w, st, &Ev { set: *set, op: Op::Crashed(copt, m) });
+                        do_event(w, st, &Ev { set: *set, op: Op::Crashed(copt, m, false) });
+                        if all_crash_points
+                            && muts[m].verb == conserve::transport::record::Verb::Write
+                            && muts[m].pre == Pre::Absent
+                        {
+                            do_event(w, st, &Ev { set: *set, op: Op::Crashed(copt, m, true) });
+                        }
                     }
                 }
             }
